@@ -87,7 +87,7 @@ def base_name(f):
 
 
 def run_class(rep, rule, mod, scope_prefix, sspec, table, default=None, externals=None, min_methods=1,
-              extra_structs=()):
+              extra_structs=(), today=None):
     """run every instantiated member of a class under its class contract.
     table: list of (matcher, FnSpec-or-None); matcher is a base name or a
     callable(fn); the first match wins; None skips the member (with reason
@@ -106,6 +106,13 @@ def run_class(rep, rule, mod, scope_prefix, sspec, table, default=None, external
             if (callable(m) and m(f)) or (not callable(m) and base_name(f) == m):
                 spec = sp
                 break
+        if today is not None and base_name(f) not in today and \
+                any(c.callee == f.name for g in fns if g is not f for c in g.calls()):
+            # a member that did not exist when the contracts were written and that other members call: a helper split off by
+            # a refactoring.  It is entered in states its callers establish (possibly with the class invariant suspended),
+            # not in every state of the class, and is analysed in its callers' contexts.
+            skipped.append(f.qualname)
+            continue
         if spec is None:
             skipped.append(f.qualname)
             continue
